@@ -17,7 +17,7 @@ RULE = (
     "part 1: bands {(1500,-10,8),(1400,-1/3,6),(1200,+5,4),(1400,-1,1)} x tsamp {1e-3,64e-6,1e-5} x 11 DMs of both signs x "
     "reference {ch1,max,min,center,numeric}: zero at the reference channel, antisymmetric in DM, monotone in frequency, within "
     "0.5+1e-3(1+|d|) samples of the exact-rational formula. part 2: per band, every DM of a set with both signs and maxdelay<nsamps x "
-    "{block rotation, valid-samples variant} x reference choices, streamed dedispersion x gulps {1,5,7,N,10N}, read_dedisp_block x "
+    "{block rotation, valid-samples variant} x reference choices (4 named + 4 numeric incl. outside the band), streamed dedispersion x gulps {1,5,7,N,10N}, read_dedisp_block x "
     "every in-range (start,nsamps), every row of dmt_transform (full and valid, 1..5 steps), pulse restoration and DM,-DM identity; "
     "compared exactly with x[c,t+d_c] on labelled data. Non-trivial = any case with a non-zero delay"
 )
@@ -172,7 +172,9 @@ def _paths(wd, shard, ctx, res, only):
             res.nontrivial += 1
 
     # ---- block rotation and valid variant for each reference
-    for ref in ("ch1", "max", "min", "center"):
+    fhi, flo = float(max(H.fch1, H.fch1 + (C - 1) * H.foff)), float(min(H.fch1, H.fch1 + (C - 1) * H.foff))
+    # named references plus numeric ones above, below and inside the band (int and float): all-positive / all-negative delay tables
+    for ref in ("ch1", "max", "min", "center", fhi + 3 * abs(H.foff) + 1.5, int(round(fhi + 2 * abs(H.foff))) + 1, flo - 2 * abs(H.foff) - 0.25, 0.5 * (fhi + flo) + 0.1):
         d = np.atleast_1d(np.asarray(H.get_dmdelays(dm, ref_freq=ref))).astype(int)
         case = ev("block_roll", [ref])
         if case:
